@@ -1,6 +1,15 @@
 //! C43: histories of repo-directory operations (create, write id / legacy files, copy, move,
 //! delete, symlink alias, edits under the user's config root) interleaved with
 //! SecureConfig::load_config / maybe_load_config on the real file system.
+//!
+//! Nothing here trusts the implementation: every call is made under `jjv::catch`, the whole
+//! case directory (config root, a sentinel directory next to it, the repo directories and
+//! two levels above them) is fingerprinted before and after each call, and everything the
+//! call created, changed or removed outside the allowed files is recorded in the case as
+//! an observation that the proved checker rejects. A harness-side impossibility becomes an
+//! `OUnexpected` op (also rejected), never a crash.
+use std::cell::RefCell;
+use std::collections::BTreeMap;
 use std::collections::BTreeSet;
 use std::fs;
 use std::path::Path;
@@ -19,14 +28,14 @@ fn by(x: &[u8]) -> String {
     coq::bytes(x)
 }
 
-/// Absolute path as its '/'-separated components (no normalisation).
+/// Absolute path as its '/'-separated components (no normalisation, lossy on non-UTF-8).
 fn comps(p: &Path) -> Vec<Vec<u8>> {
-    let s = p.to_str().expect("utf8 path");
+    let s = p.to_string_lossy().into_owned();
     s.split('/').skip(1).map(|c| c.as_bytes().to_vec()).collect()
 }
 
 thread_local! {
-    static BASE: std::cell::RefCell<Vec<Vec<u8>>> = const { std::cell::RefCell::new(vec![]) };
+    static BASE: RefCell<Vec<Vec<u8>>> = const { RefCell::new(vec![]) };
 }
 
 /// Paths below the case's base directory are printed as `(b ++ [..])`, `b` being bound once
@@ -86,7 +95,7 @@ fn c_md(m: &Md) -> String {
 fn read_md(dir: &Path) -> Md {
     match fs::read(dir.join("metadata.binpb")) {
         Ok(b) => match ConfigMetadata::decode(b.as_slice()) {
-            Ok(m) => Md::Ok(m.path.map(|p| PathBuf::from(String::from_utf8(p).expect("utf8")))),
+            Ok(m) => Md::Ok(m.path.map(|p| PathBuf::from(String::from_utf8_lossy(&p).into_owned()))),
             Err(_) => Md::Corrupt,
         },
         Err(_) => Md::Missing,
@@ -94,6 +103,10 @@ fn read_md(dir: &Path) -> Md {
 }
 
 const HEX: &[u8] = b"0123456789abcdef";
+
+fn is_wf_id(id: &[u8]) -> bool {
+    id.len() == 20 && id.iter().all(|b| b.is_ascii_hexdigit())
+}
 
 fn gen_valid_id(rng: &mut Rng) -> Vec<u8> {
     (0..20)
@@ -104,24 +117,250 @@ fn gen_valid_id(rng: &mut Rng) -> Vec<u8> {
         .collect()
 }
 
+/// Forged ids of the two dangerous kinds: (A) exactly 20 bytes containing path characters,
+/// (B) hex digits only but of the wrong length (incl. empty).
+fn forged_id(rng: &mut Rng, kind_a: bool) -> Vec<u8> {
+    if kind_a {
+        rng.pick(&[
+            &b"../sentinel/aaaaaaaa"[..], // lands in the sentinel directory next to the root
+            &b"../../evil/.././evil"[..], // lands two levels up
+            &b"../aaaaaaaaaaaaaaaaa"[..],
+            &b"./../sentinel/../s/x"[..],
+            &b"aaaaaaaaa/aaaaaaaaaa"[..],
+        ])
+        .to_vec()
+    } else {
+        let v = gen_valid_id(rng);
+        match rng.below(5) {
+            0 => vec![],
+            1 => b"ab".to_vec(),
+            2 => v[..19].to_vec(),
+            3 => [&v[..], b"0"].concat(),
+            _ => v[..10].to_vec(),
+        }
+    }
+}
+
 /// Mostly malformed id-file contents; some valid ones (also upper case).
 fn gen_id_content(rng: &mut Rng, known: &[Vec<u8>]) -> IdFile {
     let v = gen_valid_id(rng);
-    match rng.below(16) {
+    match rng.below(20) {
         0 => IdFile::Content(b"..".to_vec()),
         1 => IdFile::Content(b"../../../../etc/x".to_vec()),
-        2 => IdFile::Content(v[..19].to_vec()),
-        3 => IdFile::Content([&v[..], b"0"].concat()),
-        4 => IdFile::Content([&v[..19], b"g"].concat()),
-        5 => IdFile::Content([&v[..9], b"/", &v[..10]].concat()),
-        6 => IdFile::Content([&v[..], b"\n"].concat()),
-        7 => IdFile::Content(vec![]),
-        8 => IdFile::Content(b"../aaaaaaaaaaaaaaaaa".to_vec()), // 20 chars, escapes if accepted
-        9 => IdFile::Content(v.to_ascii_uppercase()),
-        10 => IdFile::Unreadable,
-        11 => IdFile::Content([&v[..18], "\u{e9}".as_bytes()].concat()), // 20 bytes, 19 chars
-        12 | 13 if !known.is_empty() => IdFile::Content(rng.pick(known).clone()),
+        2 | 3 => IdFile::Content(forged_id(rng, true)),
+        4 | 5 => IdFile::Content(forged_id(rng, false)),
+        6 => IdFile::Content([&v[..19], b"g"].concat()),
+        7 => IdFile::Content([&v[..], b"\n"].concat()),
+        8 => IdFile::Content(v.to_ascii_uppercase()),
+        9 => IdFile::Unreadable,
+        10 => IdFile::Content([&v[..18], "\u{e9}".as_bytes()].concat()), // 20 bytes, 19 chars
+        11..=14 if !known.is_empty() => IdFile::Content(rng.pick(known).clone()),
         _ => IdFile::Content(v),
+    }
+}
+
+/// Fingerprint of everything below `dir` (symlinks are not followed).
+#[derive(Clone, PartialEq)]
+enum Node {
+    Dir,
+    File(Vec<u8>),
+    Link(PathBuf),
+    Other,
+}
+
+fn snapshot(dir: &Path) -> BTreeMap<PathBuf, Node> {
+    let mut out = BTreeMap::new();
+    let mut stack = vec![dir.to_path_buf()];
+    while let Some(d) = stack.pop() {
+        let Ok(rd) = fs::read_dir(&d) else { continue };
+        for e in rd.flatten() {
+            let p = e.path();
+            let node = match fs::symlink_metadata(&p) {
+                Ok(m) if m.file_type().is_symlink() => Node::Link(fs::read_link(&p).unwrap_or_default()),
+                Ok(m) if m.is_dir() => {
+                    stack.push(p.clone());
+                    Node::Dir
+                }
+                Ok(m) if m.is_file() => Node::File(fs::read(&p).unwrap_or_default()),
+                _ => Node::Other,
+            };
+            out.insert(p, node);
+        }
+    }
+    out
+}
+
+/// Paths that differ between two snapshots.
+fn diff(a: &BTreeMap<PathBuf, Node>, b: &BTreeMap<PathBuf, Node>) -> BTreeSet<PathBuf> {
+    let mut out = BTreeSet::new();
+    for (p, n) in a {
+        if b.get(p) != Some(n) {
+            out.insert(p.clone());
+        }
+    }
+    for p in b.keys() {
+        if !a.contains_key(p) {
+            out.insert(p.clone());
+        }
+    }
+    out
+}
+
+struct World {
+    case_dir: PathBuf,
+    base: PathBuf,
+    root: PathBuf,
+    names: [&'static str; 5],
+}
+
+impl World {
+    fn path_of(&self, k: usize) -> PathBuf {
+        self.base.join(self.names[k])
+    }
+}
+
+/// One load on a fresh SecureConfig, fully observed. Returns the Coq term of the op and the
+/// well-formed ids learnt.
+fn do_load(
+    w: &World,
+    chacha: &mut ChaCha20Rng,
+    p: &Path,
+    generate: bool,
+    shape: &mut BTreeSet<&'static str>,
+    migrated: &mut Vec<Vec<u8>>,
+    known_ids: &mut Vec<Vec<u8>>,
+    panics: &mut u64,
+) -> String {
+    let seen = read_id_file(p);
+    let before = snapshot(&w.case_dir);
+    let real_repo = fs::canonicalize(p).unwrap_or_else(|_| p.to_path_buf());
+    let sc = SecureConfig::new_repo(p.to_path_buf());
+    let res = jjv::catch(|| {
+        if generate {
+            sc.load_config(chacha, &w.root)
+        } else {
+            sc.maybe_load_config(chacha, &w.root)
+        }
+    });
+    let after = snapshot(&w.case_dir);
+    // classify every difference
+    let mut fresh: Vec<Vec<u8>> = vec![];
+    let mut unexpected: Vec<PathBuf> = vec![];
+    for d in diff(&before, &after) {
+        let allowed = if let Ok(rel) = d.strip_prefix(&w.root) {
+            let cs: Vec<Vec<u8>> = rel.components().map(|c| c.as_os_str().to_string_lossy().as_bytes().to_vec()).collect();
+            match cs.as_slice() {
+                [id] => is_wf_id(id) && after.get(&d) == Some(&Node::Dir),
+                [id, f] => is_wf_id(id) && (f == b"metadata.binpb" || f == b"config.toml"),
+                _ => false,
+            }
+        } else if let Ok(rel) = d.strip_prefix(&real_repo) {
+            rel == Path::new("config-id") || rel == Path::new("config.toml")
+        } else {
+            false
+        };
+        if !allowed {
+            unexpected.push(d.clone());
+        }
+        // a new well-formed directory directly under the root that is not the id the repo
+        // carried: a freshly drawn id; recover the random bytes
+        if let Ok(rel) = d.strip_prefix(&w.root) {
+            let name = rel.to_string_lossy().as_bytes().to_vec();
+            if rel.components().count() == 1
+                && !before.contains_key(&d)
+                && is_wf_id(&name)
+                && name.iter().all(|b| !b.is_ascii_uppercase())
+                && seen != IdFile::Content(name.clone())
+            {
+                let raw: Option<Vec<u8>> = name
+                    .chunks(2)
+                    .map(|c| std::str::from_utf8(c).ok().and_then(|s| u8::from_str_radix(s, 16).ok()))
+                    .collect();
+                if let Some(raw) = raw {
+                    fresh.push(raw);
+                }
+            }
+        }
+    }
+    if !unexpected.is_empty() {
+        shape.insert("escape");
+    }
+    let result = match res {
+        None => {
+            *panics += 1;
+            unexpected.push(PathBuf::from("/panic"));
+            "(LErr EPath)".to_string()
+        }
+        Some(Ok(l)) => {
+            let warn = if l.warnings.is_empty() {
+                "WNone"
+            } else if l.warnings[0].contains("been copied") {
+                shape.insert("copied");
+                "WCopied"
+            } else if l.warnings[0].contains("migrated") {
+                shape.insert("migrated");
+                "WMigrated"
+            } else {
+                "WNotFound"
+            };
+            if let Some(f) = &l.config_file {
+                let id: Option<Vec<u8>> = f
+                    .parent()
+                    .and_then(|d| d.file_name())
+                    .map(|n| n.to_string_lossy().as_bytes().to_vec());
+                if let Some(id) = id {
+                    // only ids that really name a directory directly under the root are used
+                    // by later operations of the history
+                    if is_wf_id(&id) && f.parent() == Some(w.root.join(String::from_utf8_lossy(&id).as_ref()).as_path()) {
+                        if warn == "WMigrated" {
+                            migrated.push(id.clone());
+                        }
+                        if !known_ids.contains(&id) {
+                            known_ids.push(id);
+                        }
+                    }
+                }
+            }
+            let md = l.metadata.path.as_ref().map(|b| PathBuf::from(String::from_utf8_lossy(b).into_owned()));
+            format!(
+                "(LOk (mk_loaded {} {} {}))",
+                coq::opt(l.config_file.as_ref(), |f| c_path(f)),
+                coq::opt(md.as_ref(), |p| c_path(p)),
+                warn
+            )
+        }
+        Some(Err(e)) => {
+            let k = match e {
+                SecureConfigError::BadConfigIdError => {
+                    shape.insert("bad-id");
+                    "EBadConfigId"
+                }
+                SecureConfigError::DecodeError(_) => "EDecode",
+                _ => "EPath",
+            };
+            format!("(LErr {k})")
+        }
+    };
+    coq::app(
+        "OLoad",
+        &[
+            coq::b(generate),
+            c_path(p),
+            coq::list(fresh.iter(), |b| by(b)),
+            c_id_file(&seen),
+            result,
+            coq::list(unexpected.iter(), |u| c_path(u)),
+        ],
+    )
+}
+
+fn write_id(repo: &Path, c: &IdFile) -> std::io::Result<()> {
+    let f = repo.join("config-id");
+    let _ = fs::remove_file(&f);
+    match c {
+        IdFile::Missing => Ok(()),
+        IdFile::Content(b) => fs::write(&f, b),
+        IdFile::Unreadable => fs::write(&f, [0xffu8, 0xfe, 0x30]),
     }
 }
 
@@ -130,286 +369,292 @@ fn main() {
         if std::env::var("C43_DEBUG").is_ok() {
             std::panic::set_hook(Box::new(|info| eprintln!("PANIC {info}")));
         }
+        let scratch = fs::canonicalize(&ctx.scratch).unwrap_or_else(|_| ctx.scratch.clone());
         for i in ctx.indices() {
             let mut rng = ctx.rng(i);
-            let base = fs::canonicalize(&ctx.scratch).unwrap().join(format!("c{i}"));
+            let case_dir = scratch.join(format!("c{i}"));
+            // two spare levels so that "../../x" stays inside the observed case directory
+            let base = case_dir.join("a").join("b");
             let root = base.join("config");
-            fs::create_dir_all(&root).unwrap();
+            let sentinel = base.join("sentinel");
+            let w = World { case_dir: case_dir.clone(), base: base.clone(), root: root.clone(), names: ["r0", "r1", "r2", "r3", "r4"] };
             BASE.with(|b| *b.borrow_mut() = vec![]);
             let base_term = c_path(&base);
             BASE.with(|b| *b.borrow_mut() = comps(&base));
-            let mut chacha = ChaCha20Rng::seed_from_u64(rng.next_u64());
-            let names = ["r0", "r1", "r2", "r3", "r4"];
-            let path_of = |k: usize| base.join(names[k]);
-            let mut live: BTreeSet<usize> = BTreeSet::new(); // directories (or aliases) that exist
-            let mut aliased: BTreeSet<usize> = BTreeSet::new(); // targets or sources of symlinks
-            let mut known_ids: Vec<Vec<u8>> = vec![];
-            let mut migrated: Vec<Vec<u8>> = vec![];
-            let mut ops: Vec<String> = vec![];
-            let mut shape: BTreeSet<&'static str> = BTreeSet::new();
-            let mut loads = 0;
-            let nops = rng.range(7, 16);
-            for step in 0..nops {
-                let free: Vec<usize> = (0..names.len()).filter(|k| !live.contains(k)).collect();
-                let livev: Vec<usize> = live.iter().copied().collect();
-                let movable: Vec<usize> = livev.iter().copied().filter(|k| !aliased.contains(k)).collect();
-                let choice = if step == 0 {
-                    0
-                } else if step == 1 {
-                    19
-                } else {
-                    *rng.pick(&[0u64, 1, 2, 3, 3, 4, 5, 6, 6, 7, 8, 9, 10, 11, 12, 13, 14, 15, 16, 17, 18, 19, 19, 19])
+            let ops: RefCell<Vec<String>> = RefCell::new(vec![]);
+            let shape: RefCell<BTreeSet<&'static str>> = RefCell::new(BTreeSet::new());
+            let loads = RefCell::new(0u32);
+            let mut panics = 0u64;
+            let forged_loads = RefCell::new(0u32);
+            let body = jjv::catch(|| -> std::io::Result<()> {
+                fs::create_dir_all(&root)?;
+                fs::create_dir_all(&sentinel)?;
+                let mut chacha = ChaCha20Rng::seed_from_u64(rng.next_u64());
+                let mut live: BTreeSet<usize> = BTreeSet::new();
+                let mut aliased: BTreeSet<usize> = BTreeSet::new();
+                let mut known_ids: Vec<Vec<u8>> = vec![];
+                let mut migrated: Vec<Vec<u8>> = vec![];
+                let mut load = |p: &Path, generate: bool, known_ids: &mut Vec<Vec<u8>>, migrated: &mut Vec<Vec<u8>>| {
+                    let term = do_load(&w, &mut chacha, p, generate, &mut shape.borrow_mut(), migrated, known_ids, &mut panics);
+                    *loads.borrow_mut() += 1;
+                    ops.borrow_mut().push(term);
                 };
-                if std::env::var("C43_DEBUG").is_ok() {
-                    eprintln!("case {i} step {step} choice {choice} live {live:?} ops {}", ops.last().cloned().unwrap_or_default().chars().take(150).collect::<String>());
+                if i == 0 {
+                    // corpus case: a repo, its copy, and forged id files of both kinds in the copy
+                    let (r0, r1) = (w.path_of(0), w.path_of(1));
+                    fs::create_dir(&r0)?;
+                    ops.borrow_mut().push(coq::app("OMkRepo", &[c_path(&r0)]));
+                    load(&r0, true, &mut known_ids, &mut migrated);
+                    fs::create_dir(&r1)?;
+                    if let Ok(b) = fs::read(r0.join("config-id")) {
+                        fs::write(r1.join("config-id"), b)?;
+                    }
+                    ops.borrow_mut().push(coq::app("OCopy", &[c_path(&r0), c_path(&r1)]));
+                    let forged: [&[u8]; 8] = [
+                        b"../sentinel/aaaaaaaa",
+                        b"../../evil/.././evil",
+                        b"",
+                        b"ab",
+                        b"0123456789abcdef012",
+                        b"0123456789abcdef01234",
+                        b"..",
+                        b"aaaaaaaaa/aaaaaaaaaa",
+                    ];
+                    for (n, f) in forged.iter().enumerate() {
+                        let c = IdFile::Content(f.to_vec());
+                        write_id(&r1, &c)?;
+                        ops.borrow_mut().push(coq::app("OWriteId", &[c_path(&r1), c_id_file(&c)]));
+                        load(&r1, n % 2 == 0, &mut known_ids, &mut migrated);
+                        *forged_loads.borrow_mut() += 1;
+                    }
+                    // and finally the honest copy scenario
+                    if let Some(id) = known_ids.first().cloned() {
+                        let c = IdFile::Content(id);
+                        write_id(&r1, &c)?;
+                        ops.borrow_mut().push(coq::app("OWriteId", &[c_path(&r1), c_id_file(&c)]));
+                        load(&r1, true, &mut known_ids, &mut migrated);
+                    }
+                    return Ok(());
                 }
-                match choice {
-                    0 if !free.is_empty() => {
-                        let k = *rng.pick(&free);
-                        fs::create_dir(path_of(k)).unwrap();
-                        live.insert(k);
-                        ops.push(coq::app("OMkRepo", &[c_path(&path_of(k))]));
-                    }
-                    1 | 2 if !livev.is_empty() => {
-                        let k = *rng.pick(&livev);
-                        let c = gen_id_content(&mut rng, &known_ids);
-                        let f = path_of(k).join("config-id");
-                        let _ = fs::remove_file(&f);
-                        match &c {
-                            IdFile::Missing => {}
-                            IdFile::Content(b) => fs::write(&f, b).unwrap(),
-                            IdFile::Unreadable => fs::write(&f, [0xffu8, 0xfe, 0x30]).unwrap(),
+                let nops = rng.range(7, 16);
+                let forced_forgery = rng.chance(2, 5);
+                let forced_kind_a = rng.chance(1, 2);
+                for step in 0..nops + 2 {
+                    let free: Vec<usize> = (0..w.names.len()).filter(|k| !live.contains(k)).collect();
+                    let livev: Vec<usize> = live.iter().copied().collect();
+                    let movable: Vec<usize> = livev.iter().copied().filter(|k| !aliased.contains(k)).collect();
+                    let choice = if step == 0 {
+                        0
+                    } else if step == 1 {
+                        19
+                    } else if step == nops {
+                        if forced_forgery { 100 } else { 200 }
+                    } else if step == nops + 1 {
+                        if forced_forgery { 101 } else { 200 }
+                    } else {
+                        *rng.pick(&[0u64, 1, 2, 3, 3, 4, 5, 6, 6, 7, 8, 9, 10, 11, 12, 13, 14, 15, 16, 17, 18, 19, 19, 19])
+                    };
+                    match choice {
+                        0 if !free.is_empty() => {
+                            let k = *rng.pick(&free);
+                            fs::create_dir(w.path_of(k))?;
+                            live.insert(k);
+                            ops.borrow_mut().push(coq::app("OMkRepo", &[c_path(&w.path_of(k))]));
                         }
-                        shape.insert("write-id");
-                        ops.push(coq::app("OWriteId", &[c_path(&path_of(k)), c_id_file(&c)]));
-                    }
-                    3 if !livev.is_empty() => {
-                        let k = *rng.pick(&livev);
-                        // only on repos that never had an id (legacy migration replaces the
-                        // file by a symlink afterwards)
-                        if read_id_file(&path_of(k)) == IdFile::Missing
-                            && !path_of(k).join("config.toml").exists()
-                        {
-                            let content = *rng.pick(&["", "a = 1\n", "[ui]\npager = \"x\"\n"]);
-                            fs::write(path_of(k).join("config.toml"), content).unwrap();
-                            shape.insert("legacy");
-                            ops.push(coq::app(
-                                "OWriteLegacy",
-                                &[c_path(&path_of(k)), format!("(Some {})", by(content.as_bytes()))],
-                            ));
-                        }
-                    }
-                    4..=6 if !livev.is_empty() && !free.is_empty() => {
-                        // copy: a new directory with copies of the id and legacy files
-                        let k = *rng.pick(&livev);
-                        let j = *rng.pick(&free);
-                        fs::create_dir(path_of(j)).unwrap();
-                        for f in ["config-id", "config.toml"] {
-                            if let Ok(b) = fs::read(path_of(k).join(f)) {
-                                fs::write(path_of(j).join(f), b).unwrap();
-                            }
-                        }
-                        live.insert(j);
-                        shape.insert("copy");
-                        ops.push(coq::app("OCopy", &[c_path(&path_of(k)), c_path(&path_of(j))]));
-                    }
-                    7 | 8 if !movable.is_empty() && !free.is_empty() => {
-                        let k = *rng.pick(&movable);
-                        let j = *rng.pick(&free);
-                        fs::rename(path_of(k), path_of(j)).unwrap();
-                        live.remove(&k);
-                        live.insert(j);
-                        shape.insert("move");
-                        ops.push(coq::app("OMove", &[c_path(&path_of(k)), c_path(&path_of(j))]));
-                    }
-                    9 if !movable.is_empty() => {
-                        let k = *rng.pick(&movable);
-                        fs::remove_dir_all(path_of(k)).unwrap();
-                        live.remove(&k);
-                        shape.insert("delete");
-                        ops.push(coq::app("ODelete", &[c_path(&path_of(k))]));
-                    }
-                    10 if !livev.is_empty() && !free.is_empty() => {
-                        let k = *rng.pick(&livev);
-                        let j = *rng.pick(&free);
-                        std::os::unix::fs::symlink(path_of(k), path_of(j)).unwrap();
-                        live.insert(j);
-                        aliased.insert(k);
-                        aliased.insert(j);
-                        shape.insert("alias");
-                        ops.push(coq::app("OAlias", &[c_path(&path_of(k)), c_path(&path_of(j))]));
-                    }
-                    11 if !known_ids.is_empty() => {
-                        // tamper with / remove the metadata of a config directory
-                        let id = rng.pick(&known_ids).clone();
-                        let dir = root.join(std::str::from_utf8(&id).unwrap());
-                        fs::create_dir_all(&dir).unwrap();
-                        let f = dir.join("metadata.binpb");
-                        let m = match rng.below(4) {
-                            0 => {
-                                let _ = fs::remove_file(&f);
-                                Md::Missing
-                            }
-                            1 => {
-                                fs::write(&f, [0xffu8, 0xff, 0xff]).unwrap();
-                                Md::Corrupt
-                            }
-                            2 => {
-                                fs::write(&f, ConfigMetadata { path: None }.encode_to_vec()).unwrap();
-                                Md::Ok(None)
-                            }
-                            _ => {
-                                let p = path_of(rng.usize(names.len()));
-                                let bytes = p.to_str().unwrap().as_bytes().to_vec();
-                                fs::write(&f, ConfigMetadata { path: Some(bytes) }.encode_to_vec()).unwrap();
-                                Md::Ok(Some(p))
-                            }
-                        };
-                        shape.insert("set-md");
-                        ops.push(coq::app("OSetMd", &[by(&id), c_md(&m)]));
-                    }
-                    12 | 13 if !known_ids.is_empty() => {
-                        let id = rng.pick(&known_ids).clone();
-                        if !migrated.contains(&id) {
-                            let dir = root.join(std::str::from_utf8(&id).unwrap());
-                            fs::create_dir_all(&dir).unwrap();
-                            let f = dir.join("config.toml");
-                            let c = if rng.chance(1, 4) {
-                                let _ = fs::remove_file(&f);
-                                None
+                        1 | 2 | 100 if !livev.is_empty() => {
+                            let k = *rng.pick(&livev);
+                            let c = if choice == 100 {
+                                IdFile::Content(forged_id(&mut rng, forced_kind_a))
                             } else {
-                                let content = *rng.pick(&["", "x = 1\n", "secret = \"s\"\n"]);
-                                fs::write(&f, content).unwrap();
-                                Some(content.as_bytes().to_vec())
+                                gen_id_content(&mut rng, &known_ids)
                             };
-                            shape.insert("edit-toml");
-                            ops.push(coq::app("OSetToml", &[by(&id), coq::opt(c, |c| by(&c))]));
-                        }
-                    }
-                    _ if !livev.is_empty() => {
-                        // load on a live path (rarely on a path that does not exist)
-                        let k = if rng.chance(1, 12) { rng.usize(names.len()) } else { *rng.pick(&livev) };
-                        let p = path_of(k);
-                        let generate = rng.chance(2, 3);
-                        let seen = read_id_file(&p);
-                        let list_root = |root: &Path| -> BTreeSet<Vec<u8>> {
-                            fs::read_dir(root)
-                                .unwrap()
-                                .map(|e| e.unwrap().file_name().to_str().unwrap().as_bytes().to_vec())
-                                .collect()
-                        };
-                        let before = list_root(&root);
-                        let sc = SecureConfig::new_repo(p.clone());
-                        let res = jjv::catch(|| {
-                            if generate {
-                                sc.load_config(&mut chacha, &root)
-                            } else {
-                                sc.maybe_load_config(&mut chacha, &root)
-                            }
-                        });
-                        loads += 1;
-                        // freshly generated ids = new directories under the root other than
-                        // the id the repo already carried; recover the random bytes
-                        let mut fresh: Vec<Vec<u8>> = vec![];
-                        for id in list_root(&root).difference(&before) {
-                            if seen != IdFile::Content(id.clone()) {
-                                let raw: Vec<u8> = id
-                                    .chunks(2)
-                                    .map(|c| u8::from_str_radix(std::str::from_utf8(c).unwrap(), 16).unwrap())
-                                    .collect();
-                                fresh.push(raw);
-                            }
-                        }
-                        let result = match res {
-                            None => {
-                                ctx.panicked();
-                                "(LErr EPath)".to_string() // never equal: the model does not panic
-                            }
-                            Some(Ok(l)) => {
-                                let warn = if l.warnings.is_empty() {
-                                    "WNone"
-                                } else if l.warnings[0].contains("been copied") {
-                                    shape.insert("copied");
-                                    "WCopied"
-                                } else if l.warnings[0].contains("migrated") {
-                                    shape.insert("migrated");
-                                    "WMigrated"
-                                } else {
-                                    "WNotFound"
-                                };
-                                if let Some(f) = &l.config_file {
-                                    let id = f.parent().unwrap().file_name().unwrap().to_str().unwrap().as_bytes().to_vec();
-                                    if warn == "WMigrated" {
-                                        migrated.push(id.clone());
-                                    }
-                                    if !known_ids.contains(&id) {
-                                        known_ids.push(id);
-                                    }
+                            write_id(&w.path_of(k), &c)?;
+                            if let IdFile::Content(b) = &c {
+                                if !is_wf_id(b) {
+                                    shape.borrow_mut().insert("forged");
                                 }
-                                let md = l.metadata.path.as_ref().map(|b| PathBuf::from(String::from_utf8(b.clone()).unwrap()));
-                                format!(
-                                    "(LOk (mk_loaded {} {} {}))",
-                                    coq::opt(l.config_file.as_ref(), |f| c_path(f)),
-                                    coq::opt(md.as_ref(), |p| c_path(p)),
-                                    warn
-                                )
                             }
-                            Some(Err(e)) => {
-                                let k = match e {
-                                    SecureConfigError::BadConfigIdError => {
-                                        shape.insert("bad-id");
-                                        "EBadConfigId"
-                                    }
-                                    SecureConfigError::DecodeError(_) => "EDecode",
-                                    _ => "EPath",
+                            ops.borrow_mut().push(coq::app("OWriteId", &[c_path(&w.path_of(k)), c_id_file(&c)]));
+                            if choice == 100 {
+                                // load exactly that repo next
+                                load(&w.path_of(k), rng.chance(2, 3), &mut known_ids, &mut migrated);
+                                *forged_loads.borrow_mut() += 1;
+                            }
+                        }
+                        3 if !livev.is_empty() => {
+                            let k = *rng.pick(&livev);
+                            // only on repos that never had an id (legacy migration replaces the
+                            // file by a symlink afterwards)
+                            if read_id_file(&w.path_of(k)) == IdFile::Missing
+                                && fs::symlink_metadata(w.path_of(k).join("config.toml")).is_err()
+                            {
+                                let content = *rng.pick(&["", "a = 1\n", "[ui]\npager = \"x\"\n"]);
+                                fs::write(w.path_of(k).join("config.toml"), content)?;
+                                ops.borrow_mut().push(coq::app(
+                                    "OWriteLegacy",
+                                    &[c_path(&w.path_of(k)), format!("(Some {})", by(content.as_bytes()))],
+                                ));
+                            }
+                        }
+                        4..=6 if !livev.is_empty() && !free.is_empty() => {
+                            // copy: a new directory with copies of the id and legacy files
+                            let k = *rng.pick(&livev);
+                            let j = *rng.pick(&free);
+                            fs::create_dir(w.path_of(j))?;
+                            for f in ["config-id", "config.toml"] {
+                                if let Ok(b) = fs::read(w.path_of(k).join(f)) {
+                                    fs::write(w.path_of(j).join(f), b)?;
+                                }
+                            }
+                            live.insert(j);
+                            ops.borrow_mut().push(coq::app("OCopy", &[c_path(&w.path_of(k)), c_path(&w.path_of(j))]));
+                        }
+                        7 | 8 if !movable.is_empty() && !free.is_empty() => {
+                            let k = *rng.pick(&movable);
+                            let j = *rng.pick(&free);
+                            fs::rename(w.path_of(k), w.path_of(j))?;
+                            live.remove(&k);
+                            live.insert(j);
+                            ops.borrow_mut().push(coq::app("OMove", &[c_path(&w.path_of(k)), c_path(&w.path_of(j))]));
+                        }
+                        9 if !movable.is_empty() => {
+                            let k = *rng.pick(&movable);
+                            fs::remove_dir_all(w.path_of(k))?;
+                            live.remove(&k);
+                            ops.borrow_mut().push(coq::app("ODelete", &[c_path(&w.path_of(k))]));
+                        }
+                        10 if !livev.is_empty() && !free.is_empty() => {
+                            let k = *rng.pick(&livev);
+                            let j = *rng.pick(&free);
+                            std::os::unix::fs::symlink(w.path_of(k), w.path_of(j))?;
+                            live.insert(j);
+                            aliased.insert(k);
+                            aliased.insert(j);
+                            ops.borrow_mut().push(coq::app("OAlias", &[c_path(&w.path_of(k)), c_path(&w.path_of(j))]));
+                        }
+                        11 if !known_ids.is_empty() => {
+                            // tamper with / remove the metadata of a config directory
+                            let id = rng.pick(&known_ids).clone();
+                            let dir = root.join(String::from_utf8_lossy(&id).as_ref());
+                            fs::create_dir_all(&dir)?;
+                            let f = dir.join("metadata.binpb");
+                            let m = match rng.below(4) {
+                                0 => {
+                                    let _ = fs::remove_file(&f);
+                                    Md::Missing
+                                }
+                                1 => {
+                                    fs::write(&f, [0xffu8, 0xff, 0xff])?;
+                                    Md::Corrupt
+                                }
+                                2 => {
+                                    fs::write(&f, ConfigMetadata { path: None }.encode_to_vec())?;
+                                    Md::Ok(None)
+                                }
+                                _ => {
+                                    let p = w.path_of(rng.usize(w.names.len()));
+                                    let bytes = p.to_string_lossy().as_bytes().to_vec();
+                                    fs::write(&f, ConfigMetadata { path: Some(bytes) }.encode_to_vec())?;
+                                    Md::Ok(Some(p))
+                                }
+                            };
+                            ops.borrow_mut().push(coq::app("OSetMd", &[by(&id), c_md(&m)]));
+                        }
+                        12 | 13 if !known_ids.is_empty() => {
+                            let id = rng.pick(&known_ids).clone();
+                            if !migrated.contains(&id) {
+                                let dir = root.join(String::from_utf8_lossy(&id).as_ref());
+                                fs::create_dir_all(&dir)?;
+                                let f = dir.join("config.toml");
+                                let c = if rng.chance(1, 4) {
+                                    let _ = fs::remove_file(&f);
+                                    None
+                                } else {
+                                    let content = *rng.pick(&["", "x = 1\n", "secret = \"s\"\n"]);
+                                    fs::write(&f, content)?;
+                                    Some(content.as_bytes().to_vec())
                                 };
-                                format!("(LErr {k})")
+                                ops.borrow_mut().push(coq::app("OSetToml", &[by(&id), coq::opt(c, |c| by(&c))]));
                             }
-                        };
-                        ops.push(coq::app(
-                            "OLoad",
-                            &[coq::b(generate), c_path(&p), coq::list(fresh.iter(), |b| by(b)), c_id_file(&seen), result],
-                        ));
+                        }
+                        100 | 101 | 200 => {}
+                        _ if !livev.is_empty() => {
+                            // load on a live path (rarely on a path that does not exist)
+                            let k = if rng.chance(1, 12) { rng.usize(w.names.len()) } else { *rng.pick(&livev) };
+                            let generate = rng.chance(2, 3);
+                            load(&w.path_of(k), generate, &mut known_ids, &mut migrated);
+                        }
+                        _ => {}
                     }
-                    _ => {}
+                }
+                Ok(())
+            });
+            // a failure of the harness's own file operations is an observation too: it can only
+            // happen if the implementation left the directories in an impossible state
+            match body {
+                Some(Ok(())) => {}
+                _ => {
+                    ops.borrow_mut().push("OUnexpected".to_string());
+                    shape.borrow_mut().insert("harness-failure");
                 }
             }
-            // final observation
-            let final_repos: Vec<String> = live
-                .iter()
-                .map(|k| coq::pair(c_path(&path_of(*k)), c_id_file(&read_id_file(&path_of(*k)))))
-                .collect();
+            for _ in 0..panics {
+                ctx.panicked();
+            }
+            // final observation: live repo directories and everything directly under the root
+            let mut final_repos: Vec<String> = vec![];
+            for k in 0..w.names.len() {
+                let p = w.path_of(k);
+                if p.is_dir() {
+                    final_repos.push(coq::pair(c_path(&p), c_id_file(&read_id_file(&p))));
+                }
+            }
             let mut cfg: Vec<(Vec<u8>, String)> = vec![];
-            for e in fs::read_dir(&root).unwrap() {
-                let e = e.unwrap();
-                let name = e.file_name().to_str().unwrap().as_bytes().to_vec();
-                let md = read_md(&e.path());
-                let toml = fs::read(e.path().join("config.toml")).ok();
-                cfg.push((
-                    name.clone(),
-                    coq::pair(by(&name), coq::app("mk_cfg", &[c_md(&md), coq::opt(toml, |t| by(&t))])),
-                ));
+            if let Ok(rd) = fs::read_dir(&root) {
+                for e in rd.flatten() {
+                    let name = e.file_name().to_string_lossy().as_bytes().to_vec();
+                    let md = read_md(&e.path());
+                    let toml = fs::read(e.path().join("config.toml")).ok();
+                    cfg.push((
+                        name.clone(),
+                        coq::pair(by(&name), coq::app("mk_cfg", &[c_md(&md), coq::opt(toml, |t| by(&t))])),
+                    ));
+                }
             }
             cfg.sort();
-            let term = format!("(let b := {base_term} in {})", coq::app(
-                "mk_case",
-                &[
-                    c_path(&root),
-                    coq::list(ops.iter(), |s| s.clone()),
-                    coq::list(final_repos.iter(), |s| s.clone()),
-                    coq::list(cfg.iter(), |(_, s)| s.clone()),
-                ],
-            ));
-            let shape_s = shape.iter().copied().collect::<Vec<_>>().join("+");
-            let key: String = ["copied", "migrated", "bad-id"]
+            let term = format!(
+                "(let b := {base_term} in {})",
+                coq::app(
+                    "mk_case",
+                    &[
+                        c_path(&root),
+                        coq::list(ops.borrow().iter(), |s| s.clone()),
+                        coq::list(final_repos.iter(), |s| s.clone()),
+                        coq::list(cfg.iter(), |(_, s)| s.clone()),
+                    ],
+                )
+            );
+            let shape = shape.borrow();
+            let key: String = ["copied", "migrated", "bad-id", "forged", "escape", "harness-failure"]
                 .iter()
                 .filter(|k| shape.contains(*k))
                 .copied()
                 .collect::<Vec<_>>()
                 .join("+");
-            let _ = shape_s;
-            ctx.emit(i, term, loads >= 2, &format!("loads={} {}", if loads >= 3 { "3+".to_string() } else { loads.to_string() }, key));
-            let _ = fs::remove_dir_all(&base);
+            let loads = *loads.borrow();
+            let forged_loads = *forged_loads.borrow();
+            ctx.emit(
+                i,
+                term,
+                loads >= 2,
+                &format!(
+                    "loads={} {}{}",
+                    if loads >= 3 { "3+".to_string() } else { loads.to_string() },
+                    key,
+                    if forged_loads > 0 { " forged-load" } else { "" }
+                ),
+            );
+            let _ = fs::remove_dir_all(&case_dir);
         }
     });
 }
